@@ -113,8 +113,15 @@ func (c *Ctx) add(o Obligation) {
 		return // the same obligation met again on another path
 	}
 	if n, dup := c.seen[k]; dup {
+		// the same construct fails again on another path: one obligation, counted
 		c.seen[k] = n + 1
-		o.Construct = fmt.Sprintf("%s~%d", o.Construct, n+1)
+		for i := range c.obs {
+			if c.obs[i].Key() == k && c.obs[i].Verdict == Discharged {
+				c.obs[i] = o // a failure overrides an earlier discharge of the same construct
+				return
+			}
+		}
+		return
 	} else {
 		c.seen[k] = 1
 	}
@@ -339,7 +346,11 @@ func (c *Ctx) Finish(explanation string, assumptions []string) int {
 	}
 
 	for _, o := range knowns {
-		fmt.Printf("KNOWN-FINDING: property=%s %s@%s %s %s\n", c.Prop, o.Rule, o.Construct, o.Pos, o.Detail)
+		d := o.Detail
+		if len(d) > 300 {
+			d = d[:300] + "…"
+		}
+		fmt.Printf("KNOWN-FINDING: property=%s %s@%s %s %s\n", c.Prop, o.Rule, o.Construct, o.Pos, d)
 	}
 	for _, o := range undec {
 		fmt.Printf("UNDECIDED property=%s %s@%s %s %s\n", c.Prop, o.Rule, o.Construct, o.Pos, o.Detail)
@@ -362,8 +373,16 @@ func (c *Ctx) Finish(explanation string, assumptions []string) int {
 		}
 		writeJSON(path, map[string]any{"property": c.Prop, "tier": c.Tier, "rules": rr, "violations": viols,
 			"replay": fmt.Sprintf("./check.sh %s %s --replay %s", c.Prop, c.Tier, path)})
-		for _, o := range viols {
-			fmt.Printf("  violated: %s@%s %s: %s\n", o.Rule, o.Construct, o.Pos, o.Detail)
+		for i, o := range viols {
+			if i == 12 {
+				fmt.Printf("  … %d more violated obligations in %s\n", len(viols)-12, path)
+				break
+			}
+			d := o.Detail
+			if len(d) > 700 {
+				d = d[:700] + "…"
+			}
+			fmt.Printf("  violated: %s@%s %s: %s\n", o.Rule, o.Construct, o.Pos, d)
 		}
 		fmt.Printf("VIOLATION property=%s replay=%s\n", c.Prop, path)
 		return 1
